@@ -231,19 +231,19 @@ Lemma closes_stops r : closes r -> stops (render r).
 Proof. intros (tr & r' & ->). reflexivity. Qed.
 
 Lemma wf_open rest : wf_items false rest -> wf_items false ((KLParen, []) :: rest).
-Proof. intros H. cbn [LexProofs.wf_items LexProofs.wf_tok]. repeat split; [constructor|discriminate|exact H]. Qed.
+Proof. intros H. cbn [LexProofs.wf_items LexProofs.wf_tok]. repeat split; [constructor|discriminate|discriminate|exact H]. Qed.
 Lemma wf_close trail rest : all_space trail -> wf_items false rest -> wf_items false ((KRParen, trail) :: rest).
-Proof. intros Ht H. cbn [LexProofs.wf_items LexProofs.wf_tok]. repeat split; [exact Ht|discriminate|exact H]. Qed.
-Lemma wf_word t sep rest : wf_tok false t -> all_space sep -> (sep = [] -> stops (render rest)) -> wf_items false rest ->
+Proof. intros Ht H. cbn [LexProofs.wf_items LexProofs.wf_tok]. repeat split; [exact Ht|discriminate|discriminate|exact H]. Qed.
+Lemma wf_word t sep rest : wf_tok false t -> is_comment t = false -> all_space sep -> (sep = [] -> stops (render rest)) -> wf_items false rest ->
   wf_items false ((t, sep) :: rest).
-Proof. intros Ht Hs Hn H. cbn [LexProofs.wf_items]. repeat split; [exact Ht|exact Hs|intros E _; apply Hn; exact E|exact H]. Qed.
+Proof. intros Ht Hc Hs Hn H. cbn [LexProofs.wf_items]. repeat split; [exact Ht|exact Hs|intros E _; apply Hn; exact E|rewrite Hc; discriminate|exact H]. Qed.
 
-Lemma wf_sepitems ts r : Forall (wf_tok false) ts -> closes r -> wf_items false r -> wf_items false (sepitems ts ++ r).
+Lemma wf_sepitems ts r : Forall (wf_tok false) ts -> Forall (fun t => is_comment t = false) ts -> closes r -> wf_items false r -> wf_items false (sepitems ts ++ r).
 Proof.
-  intros Hts Hc Hr. induction ts as [|a [|b ts] IH]; [exact Hr| |].
-  - inversion Hts; subst. cbn [sepitems app]. apply wf_word; [assumption|constructor|intros _; apply closes_stops; exact Hc|exact Hr].
-  - inversion Hts; subst. change (sepitems (a :: b :: ts)) with ((a, [32%N]) :: sepitems (b :: ts)). cbn [app].
-    apply wf_word; [assumption|repeat constructor|discriminate|apply IH; assumption].
+  intros Hts Hnc0 Hc Hr. induction ts as [|a [|b ts] IH]; [exact Hr| |].
+  - inversion Hts; subst. inversion Hnc0 as [|? ? Hnc _]; subst. cbn [sepitems app]. apply wf_word; [assumption|exact Hnc|constructor|intros _; apply closes_stops; exact Hc|exact Hr].
+  - inversion Hts; subst. inversion Hnc0 as [|? ? Hnc Hnc']; subst. change (sepitems (a :: b :: ts)) with ((a, [32%N]) :: sepitems (b :: ts)). cbn [app].
+    apply wf_word; [assumption|exact Hnc|repeat constructor|discriminate|apply IH; assumption].
 Qed.
 
 Lemma wf_items_tree : forall t, lexable t -> forall depth trail rest,
@@ -252,32 +252,34 @@ Lemma wf_items_tree : forall t, lexable t -> forall depth trail rest,
 Proof.
   induction t as [v|n k|name fast cs IH|a b d IHa IHb IHd] using tree_ind2; intros Hl depth trail rest Hs Hn Hr.
   - destruct v as [z|[]|s|li|ls|si|ss'| | |o]; cbn [lexable vlex] in Hl; try contradiction; cbn [items vitems app].
-    + apply wf_word; [apply show_Z_tok; exact Hl|assumption..].
-    + apply wf_word; [apply wf_true|assumption..].
-    + apply wf_word; [apply wf_false|assumption..].
-    + cbn [LexProofs.wf_items LexProofs.wf_tok]. repeat split; [exact Hl|exact Hs|discriminate|exact Hr].
+    + apply wf_word; [apply show_Z_tok; exact Hl|reflexivity|assumption..].
+    + apply wf_word; [apply wf_true|reflexivity|assumption..].
+    + apply wf_word; [apply wf_false|reflexivity|assumption..].
+    + cbn [LexProofs.wf_items LexProofs.wf_tok]. repeat split; [exact Hl|exact Hs|discriminate|discriminate|exact Hr].
     + apply wf_open. rewrite <- app_assoc. apply wf_sepitems.
       * apply Forall_forall. intros x Hx. apply in_map_iff in Hx. destruct Hx as (z & <- & Hz). apply show_Z_tok. rewrite Forall_forall in Hl. apply Hl. exact Hz.
+      * apply Forall_forall. intros x Hx. apply in_map_iff in Hx. destruct Hx as (z & <- & _). reflexivity.
       * eexists _, _. reflexivity.
       * cbn [app]. apply wf_close; assumption.
     + apply wf_open. rewrite <- app_assoc. apply wf_sepitems.
       * apply Forall_forall. intros x Hx. apply in_map_iff in Hx. destruct Hx as (z & <- & Hz). cbn [LexProofs.wf_tok]. rewrite Forall_forall in Hl. apply Hl. exact Hz.
+      * apply Forall_forall. intros x Hx. apply in_map_iff in Hx. destruct Hx as (z & <- & _). reflexivity.
       * eexists _, _. reflexivity.
       * cbn [app]. apply wf_close; assumption.
-  - cbn [items app]. apply wf_word; assumption.
+  - cbn [items app]. apply wf_word; [assumption|reflexivity|assumption..].
   - apply lexable_op in Hl. destruct Hl as [Hname Hcs]. rewrite items_op. cbn [app]. rewrite <- app_assoc. cbn [app].
     assert (HL : forall r, closes r -> wf_items false r -> wf_items false (items_list cs depth ++ r)).
     { clear Hname name fast. induction IH as [|c cs' Hc _ IHl]; intros r Hcl Hwr; [exact Hwr|]. inversion Hcs; subst.
       cbn [items_list]. rewrite <- app_assoc. destruct (all_space_next_lead depth cs') as [A1 A2]. apply Hc; [assumption|exact A1| |apply IHl; assumption].
       intros E. rewrite (A2 E). cbn [items_list app]. apply closes_stops. exact Hcl. }
-    apply wf_open. destruct (all_space_next_lead depth cs) as [A1 A2]. apply wf_word; [exact Hname|exact A1| |].
+    apply wf_open. destruct (all_space_next_lead depth cs) as [A1 A2]. apply wf_word; [exact Hname|reflexivity|exact A1| |].
     + intros E. rewrite (A2 E). reflexivity.
     + apply HL; [eexists _, _; reflexivity|apply wf_close; assumption].
   - destruct Hl as (Ha & Hb & Hd). cbn [items app]. rewrite <- !app_assoc. cbn [app].
     destruct (all_space_lead depth (show a (S depth))) as [La1 La2].
     destruct (all_space_lead depth (show b (S depth))) as [Lb1 Lb2].
     destruct (all_space_lead depth (show d (S depth))) as [Ld1 Ld2].
-    apply wf_open. apply wf_word; [apply wf_if|exact La1|intros E; contradiction|].
+    apply wf_open. apply wf_word; [apply wf_if|reflexivity|exact La1|intros E; contradiction|].
     apply IHa; [assumption|exact Lb1|intros E; contradiction|].
     apply IHb; [assumption|exact Ld1|intros E; contradiction|].
     apply IHd; [assumption|constructor|intros _; reflexivity|]. apply wf_close; assumption.
@@ -293,7 +295,7 @@ Proof.
   pose proof (render_items t Hp 0%nat []) as R. rewrite app_nil_r in R. rewrite <- R.
   apply (SourceProofs.prefix_source c show_Z parse_show_Z (items t 0 []) t).
   - pose proof (wf_items_tree t Hl 0%nat [] [] (Forall_nil _) (fun _ => I) I) as W. rewrite app_nil_r in W. exact W.
-  - apply items_tokens. exact Hp.
+  - rewrite (items_tokens t Hp). apply ttoks_nocomment.
   - exact Hw.
   - exact Hleaf.
 Qed.
